@@ -106,6 +106,13 @@ def gen_inputs(t, sd):
         for b in range(len(PAYLOADS)):
             for a in rng.sample(range(len(TEMPLATES)), 3):
                 chosen.add((a, b))
+        # type-directed pairs always included: list-shaped payloads in list positions, numeric payloads in numeric positions
+        list_pos = [a for a, tpl in enumerate(TEMPLATES) if "glyph(0" in tpl or "flash_pattern({P})" in tpl or tpl.startswith("x = {P}") or "len({P})" in tpl]
+        list_pay = [b for b, pl in enumerate(PAYLOADS) if pl.startswith(("[", "(1, 2")) and len(pl) < 60]
+        num_pos = [a for a, tpl in enumerate(TEMPLATES) if tpl in ("sleep({P})", "led.set_brightness({P})", "x = {P}", "sv.write({P})", "bz.play_tone({P})", "mon.write({P})")]
+        num_pay = [b for b, pl in enumerate(PAYLOADS) if pl.startswith(("pow(", "round(", "abs(", "int(", "float(", "divmod", "sum(", "max(", "min(", "len(range", "2.0", "31.0", "1e3", "5.0"))]
+        chosen.update((a, b) for a in list_pos for b in list_pay)
+        chosen.update((a, b) for a in num_pos for b in num_pay)
         pairs = sorted(chosen)
     for n, (a, b) in enumerate(pairs):
         canary = os.path.join(tmp, f"reduverif-canary-{os.getpid()}-{n}")
